@@ -7,6 +7,7 @@ import Secp.Gen.ScalarIR
 import Secp.Gen.FormulasC
 import Secp.Model.ScalarMult
 import Secp.Model.Ecdsa
+import Secp.Model.Schnorr
 /-
   Driver — line protocol.  One operation per input line (`op arg…`, byte strings
   in hex, "-" for the empty string, numbers in decimal); one answer per line:
@@ -369,6 +370,108 @@ def opRecoverCompact (args : List String) : String :=
        | .error e => recErrName e) ++ "\t="
   | _ => "bad-args"
 
+/-- split trailing `oracle=in:out` fields off an argument list -/
+def splitOracle (args : List String) : List String × List (Bytes × Bytes) :=
+  let (os, rest) := args.partition (·.startsWith "oracle=")
+  (rest, os.filterMap fun o =>
+    match (o.drop 7).toString.splitOn ":" with
+    | [i, out] => match ofHex i, ofHex out with
+      | some a, some b => some (a, b)
+      | _, _ => none
+    | _ => none)
+
+/-- an oracle-table hash function; an unanswered query yields a recognisable dummy -/
+def oracleFn (tbl : List (Bytes × Bytes)) (q : Bytes) : Bytes :=
+  match tbl.find? (·.1 == q) with
+  | some (_, out) => out
+  | none => List.replicate 32 0xEE
+
+def schnorrRes : Except SchnorrErr (Nat × Nat) → String
+  | .ok (r, s) => "ok " ++ toHex (schnorrSerialize r s)
+  | .error e => "err " ++ e.name
+
+def opSchnorrSign (args0 : List String) : String :=
+  let (args, tbl) := splitOracle args0
+  match args with
+  | [ds, hs] =>
+    match scalarArg ds, ofHex hs with
+    | some d, some h => schnorrRes (schnorrSign (oracleFn tbl) d h) ++ "\t="
+    | _, _ => "bad-args"
+  | _ => "bad-args"
+
+def opSchnorrSignNonce (args0 : List String) : String :=
+  let (args, tbl) := splitOracle args0
+  match args with
+  | [ds, ks, hs] =>
+    match scalarArg ds, scalarArg ks, ofHex hs with
+    | some d, some k, some h => schnorrRes (schnorrSignM (oracleFn tbl) d k h) ++ "\t="
+    | _, _, _ => "bad-args"
+  | _ => "bad-args"
+
+def opSchnorrVerify (args0 : List String) : String :=
+  let (args, tbl) := splitOracle args0
+  match args with
+  | [sb, hs, xs, ys] =>
+    match ofHex sb, ofHex hs, hexNat xs, hexNat ys with
+    | some sig, some h, some x, some y =>
+      match schnorrParse sig with
+      | .error e => "parse-err " ++ e.name ++ "\t="
+      | .ok (r, s) =>
+        let m := match schnorrVerifyM (oracleFn tbl) r s h (x % P, y % P) with
+          | none => "ok" | some e => "err " ++ e.name
+        -- spec: textbook statement of EC-Schnorr-DCRv0 verification over the affine specification
+        let sp :=
+          if h.length ≠ 32 ∨ !(onCurveXY (x % P) (y % P)) then "reject" else
+          let c := beNat (oracleFn tbl (be32 r ++ h))
+          if c ≥ N then "reject" else
+          match Pt.add (smul s G) (smul c (some (x % P, y % P))) with
+          | none => "reject"
+          | some (rx, ry) => if ry % 2 == 0 && rx == r then "ok" else "reject"
+        m ++ "\t" ++ sp
+    | _, _, _, _ => "bad-args"
+  | _ => "bad-args"
+
+def opSchnorrParse (args : List String) : String :=
+  match args.mapM ofHex with
+  | some [b] => schnorrRes (schnorrParse b) ++ "\t="
+  | _ => "bad-args"
+
+def opNonce (args : List String) : String :=
+  match args with
+  | [k, h, e, v, it] =>
+    match ofHex k, ofHex h, ofHex e, ofHex v, it.toNat? with
+    | some k, some h, some e, some v, some i =>
+      let m := match nonceM 256 k h e v i with | some n => natHex32 n | none => "none"
+      let sp := match nonceRFC6979 hmacSha256 256 k h e v i with | some n => natHex32 n | none => "none"
+      m ++ "\t" ++ sp
+    | _, _, _, _, _ => "bad-args"
+  | _ => "bad-args"
+
+def opHmacObj (args : List String) : String :=
+  match args with
+  | [prog] =>
+    let steps := prog.splitOn ";"
+    let (_, outs) := steps.foldl (fun (acc : HmacObj × List String) st =>
+      let (h, outs) := acc
+      match st.splitOn ":" with
+      | [op] =>
+        if op == "sum" then let (d, h') := h.sum; (h', outs ++ [toHex d])
+        else if op == "reset" then (h.reset, outs) else (h, outs)
+      | [op, a] =>
+        let b := (ofHex a).getD []
+        if op == "new" then (hmacNew b, outs)
+        else if op == "write" then (h.write b, outs)
+        else if op == "resetkey" then (h.resetKey b, outs)
+        else (h, outs)
+      | _ => (h, outs)) (hmacNew [], [])
+    " ".intercalate outs ++ "\t="
+  | _ => "bad-args"
+
+def opSha256 (args : List String) : String :=
+  match args.mapM ofHex with
+  | some [b] => toHex (sha256 b) ++ "\t="
+  | _ => "bad-args"
+
 def runOp (line : String) : String :=
   match (line.splitOn " ").filter (· ≠ "") with
   | [] => "empty"
@@ -378,6 +481,13 @@ def runOp (line : String) : String :=
     | "der_serialize" => opDerSerialize args
     | "kern" => opKern args
     | "keygen" => opKeygen args
+    | "nonce" => opNonce args
+    | "hmacobj" => opHmacObj args
+    | "sha256" => opSha256 args
+    | "schnorr_sign" => opSchnorrSign args
+    | "schnorr_sign_nonce" => opSchnorrSignNonce args
+    | "schnorr_verify" => opSchnorrVerify args
+    | "schnorr_parse" => opSchnorrParse args
     | "sign" => opSign args
     | "sign_nonce" => opSignNonce args
     | "verify" => opVerify args
